@@ -361,3 +361,121 @@ func VerifC14_Twin() {
 	zzverif.Assert(err != nil, "c14-twin")
 	zzverif.Reach("c14-twin")
 }
+
+// ---------------------------------------------------------------------------
+// nested transactions: a Transaction call made from inside another callback on
+// the same handle is a transaction of its own - what it wrote is rolled back
+// when it fails, whatever the outer one does afterwards, and committed when it
+// succeeds. The store keeps pending writes per transaction (zzverif.SQLTx()).
+
+type zzTxStore struct {
+	committed []int64
+	pending   map[int][]int64
+	open      map[int]bool
+}
+
+func (s *zzTxStore) hook(op, q string, args []any) error {
+	id := zzverif.SQLTx()
+	switch op {
+	case "begin":
+		s.open[id] = true
+		s.pending[id] = nil
+	case "tx.exec":
+		if !s.open[id] {
+			zzverif.Fail("c14-statement-on-finished-transaction-reached-driver")
+		}
+		for _, a := range args {
+			if v, ok := a.(int64); ok {
+				s.pending[id] = append(s.pending[id], v)
+			}
+		}
+	case "exec":
+		for _, a := range args {
+			if v, ok := a.(int64); ok {
+				s.committed = append(s.committed, v)
+			}
+		}
+	case "commit":
+		s.committed = append(s.committed, s.pending[id]...)
+		s.pending[id], s.open[id] = nil, false
+	case "rollback":
+		s.pending[id], s.open[id] = nil, false
+	}
+	return nil
+}
+
+func zzHas(xs []int64, v int64) bool {
+	for _, x := range xs {
+		if x == v {
+			return true
+		}
+	}
+	return false
+}
+
+// zzWrapper: one wrapper object of the chosen kind, used for every call (state
+// the wrapper keeps between calls is part of what is checked)
+func zzWrapper(which int, db *sql.DB) func(context.Context, func(*sql.Tx) error) error {
+	switch which {
+	case 0:
+		w := &SQLiteDB{config: &Config{}, db: db}
+		return w.Transaction
+	case 1:
+		w := &PostgresDB{config: &Config{}, db: db}
+		return w.Transaction
+	}
+	w := &MySQLDB{config: &Config{}, db: db}
+	return w.Transaction
+}
+
+func VerifC14_Nested() {
+	st := &zzTxStore{pending: map[int][]int64{}, open: map[int]bool{}}
+	zzverif.SetSQLHook(st.hook)
+	db := zzverif.OpenFakeDBConns(2)
+	which := zzverif.Choice("wrapper", 3)
+	innerFails := zzverif.Bool("inner callback fails")
+	outerSwallows := zzverif.Bool("outer callback ignores the inner failure")
+	outerFails := zzverif.Bool("outer callback fails afterwards")
+	innerFirst := zzverif.Bool("inner transaction before the outer write")
+	ctx := context.Background()
+	var innerErr error
+	transact := zzWrapper(which, db)
+	outerErr := transact(ctx, func(tx *sql.Tx) error {
+		if !innerFirst {
+			if _, err := tx.ExecContext(ctx, "INSERT INTO t (v) VALUES (?)", int64(1)); err != nil {
+				return err
+			}
+		}
+		innerErr = transact(ctx, func(tx2 *sql.Tx) error {
+			if _, err := tx2.ExecContext(ctx, "INSERT INTO t (v) VALUES (?)", int64(2)); err != nil {
+				return err
+			}
+			if innerFails {
+				return zzErrCallback
+			}
+			return nil
+		})
+		if innerErr != nil && !outerSwallows {
+			return innerErr
+		}
+		if innerFirst {
+			if _, err := tx.ExecContext(ctx, "INSERT INTO t (v) VALUES (?)", int64(1)); err != nil {
+				return err
+			}
+		}
+		if outerFails {
+			return zzErrCallback
+		}
+		return nil
+	})
+	zzverif.Assert((innerErr != nil) == innerFails, "c14-nested: inner transaction's outcome misreported")
+	zzverif.Assert(zzHas(st.committed, 2) == !innerFails, "c14-nested: a failed inner transaction left its write behind (or a successful one lost it)")
+	outerOK := !outerFails && !(innerFails && !outerSwallows)
+	zzverif.Assert((outerErr == nil) == outerOK, "c14-nested: outer transaction's outcome misreported")
+	zzverif.Assert(zzHas(st.committed, 1) == outerOK, "c14-nested: outer transaction's write does not follow its own outcome")
+	for id, o := range st.open {
+		_ = id
+		zzverif.Assert(!o, "c14-transaction-left-open")
+	}
+	zzverif.Reach("c14-nested")
+}
